@@ -18,7 +18,7 @@ import copy
 import json
 import os
 
-from .srcmodel import FuncInfo, U, strip_docstring, target_names, walk_shallow
+from .srcmodel import clone, FuncInfo, U, strip_docstring, target_names, walk_shallow
 
 INVENTORY = os.path.join(os.path.dirname(os.path.abspath(__file__)), 'inventory.json')
 _inv = None
@@ -86,9 +86,9 @@ def expand(expr, defs, depth=6, keep=()):
             if isinstance(node.ctx, ast.Load) and node.id not in keep and self.d > 0:
                 v = defs.single(node.id)
                 if v is not None and not isinstance(v, (ast.Lambda, ast.ListComp, ast.DictComp, ast.GeneratorExp, ast.SetComp)):
-                    return Sub(self.d - 1).visit(copy.deepcopy(v))
+                    return Sub(self.d - 1).visit(clone(v))
             return node
-    return Sub(depth).visit(copy.deepcopy(expr))
+    return Sub(depth).visit(clone(expr))
 
 
 def expanded_text(expr, defs, keep=()):
@@ -124,11 +124,11 @@ def single_exit(stmts, result):
             rest = stmts[i + 1:]
             body, ft_b = single_exit(s.body, result)
             if ft_b:
-                rb, ft_b = single_exit(copy.deepcopy(rest), result)
+                rb, ft_b = single_exit(clone(rest), result)
                 body = body + rb
             orelse, ft_o = single_exit(s.orelse, result)
             if ft_o:
-                ro, ft_o = single_exit(copy.deepcopy(rest), result)
+                ro, ft_o = single_exit(clone(rest), result)
                 orelse = orelse + ro
             new = ast.copy_location(ast.If(test=s.test, body=body or [ast.Pass()], orelse=orelse), s)
             out.append(new)
@@ -144,7 +144,7 @@ class Renamer(ast.NodeTransformer):
 
     def visit_Name(self, node):
         if node.id in self.exprs and isinstance(node.ctx, ast.Load):
-            return copy.deepcopy(self.exprs[node.id])
+            return clone(self.exprs[node.id])
         if node.id in self.mapping:
             return ast.copy_location(ast.Name(id=self.mapping[node.id], ctx=node.ctx), node)
         return node
@@ -169,7 +169,7 @@ class Beta(ast.NodeTransformer):
         if isinstance(f, ast.Lambda) and not node.keywords and len(f.args.args) == len(node.args) and \
                 all(isinstance(a, (ast.Name, ast.Constant, ast.Attribute, ast.Subscript)) for a in node.args):
             m = {p.arg: a for p, a in zip(f.args.args, node.args)}
-            return Renamer({}, m).visit(copy.deepcopy(f.body))
+            return Renamer({}, m).visit(clone(f.body))
         if isinstance(f, ast.Attribute) and isinstance(f.value, ast.Name) and f.value.id == 'operator' and len(node.args) == 2 \
                 and f.attr in ('add', 'mul', 'sub', 'truediv'):
             op = {'add': ast.Add, 'mul': ast.Mult, 'sub': ast.Sub, 'truediv': ast.Div}[f.attr]()
@@ -254,7 +254,7 @@ class Normaliser:
                 if p not in defaults:
                     return None
                 bound[p] = defaults[p]
-        body = copy.deepcopy(strip_docstring(node.body))
+        body = clone(strip_docstring(node.body))
         assigned = set()
         for s in body:
             for n in walk_shallow(s):
@@ -351,7 +351,7 @@ class Normaliser:
         init = ast.Assign(targets=[ast.Name(id=acc, ctx=ast.Store())], value=ast.List(elts=[], ctx=ast.Load()))
         final_val = ast.Name(id=acc, ctx=ast.Load())
         if wrap is not None:
-            wrap = copy.deepcopy(wrap)
+            wrap = clone(wrap)
             wrap.args[0] = final_val
             final_val = wrap
         if isinstance(s, ast.Return):
@@ -390,7 +390,7 @@ class Normaliser:
             # statement-level conditional expressions
             if isinstance(s, (ast.Assign, ast.Return)) and isinstance(s.value, ast.IfExp):
                 def mk(v):
-                    return ast.Return(value=v) if isinstance(s, ast.Return) else ast.Assign(targets=copy.deepcopy(s.targets), value=v)
+                    return ast.Return(value=v) if isinstance(s, ast.Return) else ast.Assign(targets=clone(s.targets), value=v)
                 def selfassign(v):
                     return isinstance(s, ast.Assign) and len(s.targets) == 1 and isinstance(s.targets[0], ast.Name) and \
                         isinstance(v, ast.Name) and v.id == s.targets[0].id
@@ -466,7 +466,7 @@ class Normaliser:
         return out
 
     def run(self):
-        node = copy.deepcopy(self.fi.node)
+        node = clone(self.fi.node)
         node.body = self.block(node.body, {}, (self.fi.qualname,))
         ast.fix_missing_locations(node)
         for n in ast.walk(node):
